@@ -8,6 +8,7 @@ formulas vs finite differences, random DAG programs vs finite differences (model
 import pv
 from engines import tensor_common as tc
 from engines import tensor_gen as g
+from engines import scalar
 
 BW = g.FAMILIES["move_bw"] + ["max_bw", "min_bw", "add_bw", "sub_bw", "mul_bw", "matmul_bw", "conv2d_bw", "pool_bw", "inplace_add"]
 
@@ -15,6 +16,9 @@ BW = g.FAMILIES["move_bw"] + ["max_bw", "min_bw", "add_bw", "sub_bw", "mul_bw", 
 def run(ctx):
     ctx.level = "proof"
     tc.optional_part(ctx, "bwtables", "prepare")      # regenerate the BACKWARD tables before the theorems are recompiled
+    # regenerate Gen/ScalarGen.v + Gen/ScalarInventory.v from the current tree BEFORE the theorems are recompiled
+    # (Properties_C01_graph_real / _graph_total / _scalar / _inventory depend on them)
+    scalar.regenerate()
     res = ctx.prove()
     n = 5000 if ctx.quick() else 60000
     tc.run_stream(ctx, "tensor-bw-naive", BW, n, backend="naive", exhaustive_ops=("max_bw", "flip_bw"))
@@ -44,12 +48,28 @@ def run(ctx):
 
 
 def confirm_d11(ctx):
-    """Known finding D11: the dense softmax_cross_entropy backward is the derivative only for sum(t)=1."""
+    """Known finding D11: the dense softmax_cross_entropy backward is the derivative only for sum(t)=1.
+    harness/sce_probe_drv.cc prints `D11 mismatch` only for exactly the registered defect (backward = softmax(x) - t
+    while the finite difference = softmax(x)*sum(t) - t), `FAIL ...` for any other wrong gradient, `ok normalised-t ...`
+    for every normalised probe that agrees, and `DONE normalised=<n> ok=<n> other=<n>` last."""
+    import re
     drv = pv.build_harness("plain", "sce_probe_drv")
     rc, out = pv.sh(drv, timeout=120)
-    ctx.cov["d11_probe"] = out.strip()[:300]
-    for l in out.splitlines():
-        if l.startswith("D11 mismatch"):
-            ctx.violation("d11", {"kind": "gradient", "witness": "softmax_cross_entropy(x,t,0) unnormalised-t :: " + l}, True, l)
-        if l.startswith("FAIL"):
-            ctx.violation("sce", {"kind": "gradient", "witness": "softmax_cross_entropy normalised-t gradient :: " + l}, True, l)
+    lines = out.splitlines()
+    oks = [l for l in lines if l.startswith("ok normalised-t")]
+    d11 = [l for l in lines if l.startswith("D11 mismatch")]
+    fails = [l for l in lines if l.startswith("FAIL")]
+    done = re.search(r"^DONE normalised=(\d+) ok=(\d+) other=(\d+)$", out, re.M)
+    ctx.cov["d11_probe"] = {"rc": rc, "summary": done.group(0) if done else "no DONE line", "ok_normalised_lines": len(oks),
+                            "d11_lines": len(d11), "fail_lines": len(fails), "first_d11": (d11[0][:300] if d11 else "")}
+    complete = (rc == 0 and done is not None and len(oks) == int(done.group(2)) and len(oks) >= 1
+                and (len(oks) == int(done.group(1)) or fails))
+    if not complete:
+        # crash, timeout or truncated output of the probe: the gradient of the dense cross entropy was not checked
+        ctx.violation("sce-probe", {"kind": "probe-crash", "rc": rc, "output_tail": lines[-8:], "replay_cmd": drv,
+                                    "witness": "sce_probe_drv did not complete (rc=%d, %d ok lines)" % (rc, len(oks))}, True,
+                      "sce_probe_drv did not complete: rc=%d, %d `ok normalised-t` lines, %s" % (rc, len(oks), done.group(0) if done else "no DONE line"))
+    for l in d11:
+        ctx.violation("d11", {"kind": "gradient", "witness": "softmax_cross_entropy(x,t,0) unnormalised-t :: " + l}, True, l)
+    for l in fails[:3]:
+        ctx.violation("sce", {"kind": "gradient", "witness": "softmax_cross_entropy gradient probe :: " + l, "replay_cmd": drv}, True, l)
